@@ -101,8 +101,13 @@ STOPITER = ('StopStream', 'PausedStream', 'StopIteration')
 
 
 class RefCond:
-    def __init__(self):
-        self.test = False
+    """`test` is a bool or ['flag', name]: a callable predicate that returns
+    the current value of the world's flag `name` (Condition docstring: "it
+    can be a callable that return a boolean"); it is evaluated each time the
+    condition is looked at."""
+
+    def __init__(self, test=False):
+        self.test = test
         self.waiting = []
 
 
@@ -261,7 +266,7 @@ class RefRoutine:
                 continue
             if a == 'wait':
                 c = w.conds[act[1]]
-                if c.test:
+                if w.holds(c):
                     return self._suspend(0, ['wait'])
                 c.waiting.append(w.stack[0])    # the playing (outermost) one
                 return self._suspend('hang', ['wait'])
@@ -294,9 +299,11 @@ class RefRoutine:
 
 
 class RefWorld:
-    def __init__(self, specs, conds=(), fvs=()):
+    def __init__(self, specs, conds=(), fvs=(), flags=(), cond_init=None):
         self.r = {n: RefRoutine(self, n, s) for n, s in specs.items()}
-        self.conds = {c: RefCond() for c in conds}
+        self.flags = {g: False for g in flags}
+        self.conds = {c: RefCond((cond_init or {}).get(c, False))
+                      for c in conds}
         self.fvs = {f: RefFlowVar() for f in fvs}
         self.pending = {n: 0 for n in specs}
         self.stack = []
@@ -311,8 +318,23 @@ class RefWorld:
     def unhang(self, c):
         self._release(self.conds[c], True)
 
+    def holds(self, cond):
+        """The truth value of the test *now* (callables are evaluated)."""
+        t = cond.test
+        if isinstance(t, list) and t[0] == 'flag':
+            return bool(self.flags[t[1]])
+        return bool(t)
+
+    def set_flag(self, g, v):
+        self.flags[g] = v
+
+    def fvsignal(self, f):
+        """flowvar.condition.signal(): the flow variable's own test is
+        "the value is bound"."""
+        self._release(self.fvs[f].cond, False)
+
     def _release(self, cond, force):
-        if force or cond.test:
+        if force or self.holds(cond):
             for n in cond.waiting:
                 self.pending[n] = 1
             cond.waiting = []
@@ -361,7 +383,7 @@ class RefWorld:
         return [{n: r.snapshot() for n, r in self.r.items()},
                 {c: [x.test, x.waiting] for c, x in self.conds.items()},
                 {f: [x.value, x.cond.waiting] for f, x in self.fvs.items()},
-                self.pending]
+                self.pending, self.flags]
 
 
 # ---------------------------------------------------------------------------
@@ -465,6 +487,24 @@ def selftest():
     w.wake('a')
     w.unhang('c')
     assert w.pending['a'] == 1
+    # callable test: evaluated at signal time, not its mere presence
+    w = RefWorld({'a': G([['wait', 'c'], ['yield', 'x']])}, conds=['c'],
+                 flags=['g'], cond_init={'c': ['flag', 'g']})
+    w.r['a'].play()
+    assert w.wake('a') == ret('hang')
+    w.signal('c')
+    assert w.pending['a'] == 0          # predicate returns False
+    w.set_flag('g', True)
+    assert w.pending['a'] == 0          # never before the signal
+    w.signal('c')
+    assert w.pending['a'] == 1
+    w = RefWorld({'a': G([['fvget', 'f'], ['echo']])}, fvs=['f'])
+    w.r['a'].play()
+    w.wake('a')
+    w.fvsignal('f')
+    assert w.pending['a'] == 0          # unbound: signal releases nobody
+    w.fvset('f', 3)
+    assert w.pending['a'] == 1 and w.wake('a') == ret(3)
     # stopped / reset while parked: not waiting any more
     w = RefWorld({'a': G([['wait', 'c']], [['yield', 'x']])}, conds=['c'])
     w.r['a'].play()
